@@ -20,6 +20,7 @@ canonical spelling, so a rule sees the same tree whichever one the author chose:
   D10 torch.where(logical_not(m) | ~m, x, y) -> torch.where(m, y, x)
   D11 x.dim() / x.ndim / x.ndimension()  -> len(x.shape) ; x.mT -> x.transpose(-1, -2)
   D13 divmod(a, b)[0] / [1]              -> a // b / a % b
+  D14 [a, b][k]                          -> the k-th element (literal sequence, constant k)
   D12 X.m(a, q=b) -> X.m(a, b) when q is the next positional parameter of every definition of method m in the package
 
 Only spelling is touched: every rewrite is an identity of the PyTorch / Python
@@ -232,6 +233,10 @@ class Canon(ast.NodeTransformer):
                 and isinstance(sl, ast.Constant) and sl.value in (0, 1):
             a, b = node.value.args
             return self._hit(ast.BinOp(left=a, op=ast.FloorDiv() if sl.value == 0 else ast.Mod(), right=b), node)
+        # D14 [a, b][0] -> a (constant index into a literal sequence without starred elements)
+        if isinstance(node.value, (ast.List, ast.Tuple)) and isinstance(sl, ast.Constant) and isinstance(sl.value, int) and not isinstance(sl.value, bool) \
+                and not any(isinstance(x, ast.Starred) for x in node.value.elts) and -len(node.value.elts) <= sl.value < len(node.value.elts):
+            return self._hit(node.value.elts[sl.value], node)
         elts = list(sl.elts) if isinstance(sl, ast.Tuple) else [sl]
 
         def full(e):
